@@ -83,6 +83,50 @@ def run(ctx):
                 ctx.violation({"kind": "calls", "case": c, "step": k, "observed": g, "panic": "panic" in g,
                                "what": "step %d %s.%s(%s): got %s, model: found=%s exact" % (k, s["h"], s["op"], s["obj"], json.dumps(g)[:200], s["found"])})
                 break
+    # long histories drawn by TLC's simulator: a third handle that keeps deleted packs available is opened and dropped,
+    # several maintenance steps, three slots only (slots of vanished packs are reused)
+    hist = ctx.tlc_gen("odb", "OdbHist_Gen", consts={"MaxSteps": 30}, workers=1, sim="num=%d" % (40 if not ctx.thorough else 400), timeout=600,
+                       ) if True else []
+    for c in hist:
+        c["op"] = "calls"
+        c["objects"] = objects
+        c["slots"] = 3
+    res = ctx.harness(binary, hist, env=env, timeout=300, max_failures=3)
+    for c, r in zip(hist, res):
+        ctx.nontrivial(json.dumps(c["steps"], sort_keys=True))
+        if "got" not in r:
+            if not r.get("skipped"):
+                ctx.violation({"kind": "history", "case": c, "hang": "hang" in r, "what": "lookup did not return or the executor died: %s" % json.dumps(r)[:300]})
+            continue
+        pinned, stable = set(), False        # index files a stable handle may keep in their slots after they were deleted
+        for k, (s, g) in enumerate(zip(c["steps"], r["got"])):
+            if s["env"]:
+                if g.get("env") != "ok":
+                    raise ToolError("git maintenance step %s failed" % s["env"])
+                continue
+            if s["op"] in ("open_stable", "drop"):
+                # slots of deleted index files that were kept for a stable handle are only given up when another file needs them
+                # while no stable handle exists: from the first stable handle on, count every index file seen (an upper bound)
+                stable = stable or s["op"] == "open_stable"
+                continue
+            now = set(g.get("idx", []))
+            if stable:
+                pinned |= now
+            else:
+                pinned = set(now)
+            # the store was opened with three slots: when more index files than that have to be held (those on disk and those a
+            # stable handle keeps), a lookup may refuse with that explicit error - it must not answer "not there", hang or panic
+            if "slotmap turned out to be too small" in str(g.get("error", "")) and len(pinned) > c["slots"]:
+                ctx.cov["refused_insufficient_slots"] = ctx.cov.get("refused_insufficient_slots", 0) + 1
+                break
+            if "panic" in g or "error" in g or g.get("found") != s["found"] or not g.get("exact", False):
+                ctx.violation({"kind": "history", "case": c, "step": k, "observed": g, "panic": "panic" in g,
+                               "op": s["op"], "slots_exhausted": len(pinned) > c["slots"],
+                               "what": "step %d %s.%s(%s) after %s: got %s, model: found=%s exact" % (
+                                   k, s["h"], s["op"], s["obj"], [x["env"] or x["op"] for x in c["steps"][:k] if x["env"] or x["op"] in ("open_stable", "drop")],
+                                   json.dumps(g)[:200], s["found"])})
+                break
+    ctx.cov["histories"] = len(hist)
     ctx.cov["exhaustive"] = bool(ctx.thorough)
     ctx.sample({"steps": [(s.get("env") or "%s.%s(%s)" % (s["h"], s["op"], s["obj"])) for s in cases[0]["steps"]]})
     # stress
@@ -97,8 +141,13 @@ def run(ctx):
         g = r["got"]
         lookups += g["lookups"]
         ctx.nontrivial("stress-%d-%d" % (c["threads"], c["seed"]))
-        for a in g["anomalies"][:3]:
+        # the maintenance script has up to 7 index files at once; a store opened with fewer slots may refuse a lookup with
+        # the explicit InsufficientSlots error (counted) - anything else, and any such error with enough slots, is judged
+        refused = [a for a in g["anomalies"] if c["slots"] < 8 and "slotmap turned out to be too small" in str(a["result"].get("error", ""))]
+        ctx.cov["stress_refused_insufficient_slots"] = ctx.cov.get("stress_refused_insufficient_slots", 0) + len(refused)
+        for a in [a for a in g["anomalies"] if a not in refused][:3]:
             ctx.violation({"kind": "stress", "case": c, "anomaly": a, "panic": "panic" in a["result"],
+                           "op": a["op"], "observed": a["result"], "slots_exhausted": c["slots"] < 8,
                            "what": "lookup of %s id %s answered %s during repacking" % ("present" if a["present"] else "missing", a["id"][:8], json.dumps(a["result"])[:200])})
     ctx.cov["stress_lookups"] = lookups
     ctx.cov["rule"] = ("Model: OdbStore instance 2 handles x 2 files x 2 slots (all interleavings). Replay: lookup/maintenance sequences of OdbCalls_Gen "
